@@ -30,3 +30,50 @@ pub fn probe_group<G>(g: &G, n_mand: usize, perm: &[usize]) -> Facts {
     }
     Facts { mandatory_present, optional_present, size: std::mem::size_of::<G>(), align: std::mem::align_of::<G>() }
 }
+
+/// C04: "the opaque and the concrete form of any object have identical size, alignment and bit
+/// pattern" — read directly: a concrete object is built (its own world, so the run's books do not
+/// see it), its words are noted, it is made opaque and the words are read again.
+pub fn opaque_identity(seed: u64) -> Result<(), simcore::Violation> {
+    use crate::corpus::*;
+    use crate::dispatch::FreshCtx;
+    use crate::world::{Core, CtxPayload, PlainCtx, World, ERASED};
+    use cglue::prelude::v1::*;
+    use cglue::trait_group::{c_void, NoContext, Opaquable};
+    fn words<T>(t: &T) -> Vec<usize> {
+        let n = std::mem::size_of::<T>() / std::mem::size_of::<usize>();
+        (0..n).map(|i| unsafe { (t as *const T as *const usize).add(i).read() }).collect()
+    }
+    let w = World::new();
+    macro_rules! probe {
+        ($what:expr, $ty:ty, $from:expr) => {{
+            let c: $ty = From::from($from);
+            let (s1, a1, w1) = (std::mem::size_of_val(&c), std::mem::align_of_val(&c), words(&c));
+            let o = Opaquable::into_opaque(c);
+            let (s2, a2, w2) = (std::mem::size_of_val(&o), std::mem::align_of_val(&o), words(&o));
+            if s1 != s2 || a1 != a2 {
+                return Err(simcore::Violation::new("layout.opaque_differs", $what, format!("{}: the concrete form has size {} align {}, the opaque form size {} align {}", $what, s1, a1, s2, a2)));
+            }
+            if w1 != w2 {
+                let i = w1.iter().zip(w2.iter()).position(|(x, y)| x != y).unwrap_or(0);
+                return Err(simcore::Violation::new("layout.opaque_differs", $what, format!("{}: word {} of the object changes when it is made opaque ({:#x} -> {:#x})", $what, i, w1[i], w2[i])));
+            }
+            drop(o);
+        }};
+    }
+    let solo = |k: u64| Solo::new(Core::new(&w, ERASED, seed ^ k, false));
+    probe!("Basic/Box/none", BasicBase<'static, CBox<'static, Solo>, NoContext>, solo(1));
+    probe!("Basic/Box/arc", BasicBase<'static, CBox<'static, Solo>, CArc<CtxPayload>>, (solo(2), <CArc<CtxPayload>>::fresh()));
+    probe!("ReadOnly/ArcSome/plain", ReadOnlyBase<'static, CArcSome<Solo>, PlainCtx>, (CArcSome::from(solo(3)), PlainCtx::fresh()));
+    probe!("Children/Box/arc_opaque", ChildrenBase<'static, CBox<'static, Solo>, CArc<c_void>>, (solo(4), <CArc<c_void>>::fresh()));
+    probe!("GrpA/Box/arc_opaque", GrpA<'static, CBox<'static, A5>, CArc<c_void>>, (A5::new(Core::new(&w, ERASED, seed ^ 5, false)), <CArc<c_void>>::fresh()));
+    probe!("GrpC/Box/none", GrpC<'static, CBox<'static, C7>, NoContext>, C7::new(Core::new(&w, ERASED, seed ^ 6, false)));
+    probe!("GrpR/ArcSome/arc", GrpR<'static, CArcSome<R1>, CArc<CtxPayload>>, (CArcSome::from(R1::new(Core::new(&w, ERASED, seed ^ 7, false))), <CArc<CtxPayload>>::fresh()));
+    {
+        let leaked: &'static mut Solo = Box::leak(Box::new(solo(8)));
+        let p = leaked as *mut Solo;
+        probe!("Basic/Mut/plain", BasicBase<'static, &'static mut Solo, PlainCtx>, (leaked, PlainCtx::fresh()));
+        drop(unsafe { Box::from_raw(p) });
+    }
+    Ok(())
+}
